@@ -430,6 +430,18 @@ class Gen:
             self.features.add('goto')
             return (['if (%s) goto %s;' % (self.expr(ctx, ed)[0], lab)] + self.stmts(ctx, depth - 1, r.randint(1, 2))
                     + ['%s: ;' % lab])
+        if k < 0.90 and ctx.get('unions') and r.random() < 0.7:
+            # straight-line type punning through union members (incl. members of nested structs):
+            # a store through one member must be seen by the loads through the others
+            u = r.choice(ctx['unions'])
+            whole = [m for m in self.UL if '.' not in m[0] and '[' not in m[0]]
+            nested = [m for m in self.UL if '.' in m[0]]
+            (ma, ta_) = r.choice(whole) if r.random() < 0.5 else r.choice(self.UL)
+            (mb, tb_) = r.choice(nested) if r.random() < 0.7 else r.choice(self.UL)
+            (mc, tc_) = r.choice(self.UL)
+            self.features.add('union-pun-sequence')
+            return ['%s.%s = %s;' % (u, ma, self.expr(ctx, ed)[0]), '%s.%s = %s;' % (u, mb, self.expr(ctx, ed)[0]),
+                    'mix ((u64)%s.%s);' % (u, ma), 'mix ((u64)%s.%s);' % (u, mc), 'mix ((u64)%s.%s);' % (u, mb)]
         if k < 0.93 and ctx['structvars']:
             return self.struct_stmt(ctx)
         if k < 0.96:
@@ -479,6 +491,7 @@ class Gen:
         UL = [('ll', 'llong'), ('s.lo', 'int'), ('s.hi', 'uint'), ('t.h0', 'short'), ('t.h1', 'ushort'), ('t.in.c0', 'schar'),
               ('t.in.c1', 'uchar'), ('t.in.h2', 'short'), ('ul', 'ulong')] + [('b[%d]' % i, 'uchar') for i in range(8)]
         self.features.add('union-punning')
+        self.UL = UL
         # globals
         gatoms, gwrit, gstruct = [], [], []
         L.append('union U0 gu0 = { %s };' % self.const_val('llong'))
@@ -590,7 +603,8 @@ class Gen:
             for lv, t, w in self.leaves(si, n + '.'):
                 atoms.append((lv, t))
                 writ.append((lv, t, w))
-        ctx = dict(atoms=atoms, writable=writ, loops=0, structvars=gstruct + lstruct, sfuncs=sfuncs)
+        ctx = dict(atoms=atoms, writable=writ, loops=0, structvars=gstruct + lstruct, sfuncs=sfuncs,
+                   unions=['gu0'] + (['lu0'] if any(a[0].startswith('lu0.') for a in atoms) else []))
         nst = max(3, int(r.randint(6, 14) * self.size))
         for i in range(nst):
             body += self.stmt(ctx, 3)
